@@ -410,6 +410,10 @@ class Interp:
         self.stack.append(self.owner.get(id(fn), self.stack[-1]))
         try:
             return self._call_node(fn, fname, args, kwargs)
+        except (TypeError, AttributeError, IndexError, KeyError,
+                ValueError, AssertionError) as e:
+            # the interpreter met a value it has no transfer function for
+            raise Unsupported(f"{fname}: {type(e).__name__}: {e}")
         finally:
             self.stack.pop()
 
@@ -1226,6 +1230,12 @@ class Interp:
                 raise Unsupported("range over a symbolic size")
             return tuple(range(*args))
         if name == "len":
+            if isinstance(args[0], AArr):
+                if not args[0].shape:
+                    raise ShapeError("len() of a 0-d array")
+                return args[0].shape[0]
+            if isinstance(args[0], AScal):
+                raise ShapeError("len() of a scalar")
             return len(args[0])
         if name == "max":
             return max(*args)
